@@ -328,6 +328,17 @@ class G:
         r = self.rng
         if r.random() < p:
             c = r.random()
+            # scalar confusion: a look-alike of another scalar class
+            if v is True or v is False:
+                if c < 0.6:
+                    return ["i", "1" if v else "0"]
+            elif isinstance(v, list) and v[0] == "i" and c < 0.6:
+                return r.choice([True, False, ["f", v[1] + ".0"], ["s", v[1]]])
+            elif isinstance(v, list) and v[0] == "f" and c < 0.6:
+                return r.choice([["i", "1"], ["s", v[1]], True])
+            elif isinstance(v, list) and v[0] == "s" and c < 0.5:
+                return r.choice([["i", "12"], ["s", v[1] + "x"], ["coll", "list", [v]], True, ["f", "1.5"]])
+            c = r.random()
             if c < 0.4:
                 return self.junk(1)
             if c < 0.55:
